@@ -20,6 +20,7 @@
 
 #include <chrono>
 #include <csignal>
+#include <execinfo.h>
 #include <memory>
 #include <sstream>
 #include <stdexcept>
@@ -52,22 +53,34 @@ using namespace verif;
 //
 // Lost real wake-up: declared from runtime state, never from elapsed time (see `watchdog`).
 namespace {
+    struct task_agent;
     struct task_shared    // guarded by controller::m
     {
         explicit task_shared(int n)
           : in_susp(n, 0)
+          , at_point(n, 0)
           , res_started(n, 0)
           , res_done(n, 0)
           , ids(n)
+          , agents(n, nullptr)
         {
         }
-        std::vector<int> in_susp;    // 1 from the hand-over of the baton until the real suspend returned
+        std::vector<int> in_susp;     // 1 from the hand-over of the baton until the real suspend returned
+        std::vector<int> at_point;    // lean mode: the task waits for the baton in a real suspension
+                                      // and is owed one real resume by whoever grants it the baton
         std::vector<long> res_started, res_done;    // real resume calls aimed at the task
         std::vector<pika::threads::detail::thread_id_type> ids;
+        std::vector<task_agent*> agents;
         std::vector<int> spurious;    // tasks whose real suspension ended without a resume
-        long real_suspends = 0, resumes_on_active = 0;
+        long real_suspends = 0, resumes_on_active = 0, baton_suspends = 0;
         bool drop_real_resume = false;    // self-test of the watchdog (VERIF_C09P_DROP_RESUME=1)
+        // lean mode (case header workers=<W>, any W >= 1, in particular W < number of tasks): a task
+        // that waits for the baton does not block its worker either - it suspends itself through
+        // pika's task agent and the thread that hands the baton to it resumes it.  No task ever
+        // blocks a worker, so n tasks run on fewer than n workers ("more participants than workers").
+        bool lean = false;
     };
+    task_shared* g_sh = nullptr;
 
     pika::threads::detail::thread_schedule_state real_state(pika::threads::detail::thread_id_type const& id)
     {
@@ -86,6 +99,18 @@ namespace {
         new (buf) ra(a);    // constructor swaps the slot; the destructor is deliberately never run
     }
 
+    // (lock held) after controller::switch_from: the thread that now has the baton; if it waits for
+    // the baton in a real suspension the caller owes it a real resume (to be issued without the lock)
+    int grant(controller& c, task_shared& sh)
+    {
+        int const nx = c.current;
+        if (!sh.lean || nx < 0 || nx >= c.n || !sh.at_point[nx]) return -1;
+        sh.at_point[nx] = 0;
+        ++sh.res_started[nx];
+        return nx;
+    }
+    void real_resume(controller& c, task_shared& sh, int target, char const* desc, bool counted);
+
     struct task_agent : verif_agent
     {
         pika::execution::detail::agent_base& real;
@@ -97,8 +122,67 @@ namespace {
         {
         }
         std::string description() const override { return "verif task_agent"; }
+
+        // really suspend the calling task (it must have marked itself in_susp under the lock)
+        void real_suspend(char const* desc)
+        {
+            my_tid = -1;
+            real.suspend(desc);    // the pika task gives up its worker until somebody resumes it
+            install_agent(*this);  // (possibly on another worker)
+            my_tid = tid;
+        }
+        // (lock held via l) wait until the controller has granted the baton to this task
+        void await_baton(std::unique_lock<std::mutex>& l)
+        {
+            if (sh.lean && c->current != tid)
+            {
+                sh.at_point[tid] = 1;
+                sh.in_susp[tid] = 1;
+                ++sh.baton_suspends;
+                l.unlock();
+                real_suspend("verif: waiting for the baton");
+                l.lock();
+                sh.in_susp[tid] = 0;
+                if (c->current != tid) sh.spurious.push_back(tid);
+            }
+            c->th[tid].cv.wait(l, [&] { return c->current == tid; });
+        }
+        // lean mode: preemption point that holds no worker while it waits
+        void lean_point(char const* site, void const* o, long long a, long long b, tstate st)
+        {
+            std::unique_lock<std::mutex> l(c->m);
+            c->th[tid].st = st;
+            c->switch_from(-1, l);
+            int const r = grant(*c, sh);
+            if (r >= 0)
+            {
+                l.unlock();
+                real_resume(*c, sh, r, "verif: baton", true);
+                l.lock();
+            }
+            await_baton(l);
+            if (c->th[tid].st == tstate::sleeping) c->logf(tid, "ag.timeout", 0, 0, 0);
+            c->th[tid].st = tstate::runnable;
+            c->logf(tid, site, c->obj(o), a, b);
+        }
+        void yield(char const* d) override
+        {
+            if (sh.lean) lean_point("ag.yield", nullptr, 0, 0, tstate::spinning);
+            else verif_agent::yield(d);
+        }
+        void yield_k(std::size_t k, char const* d) override
+        {
+            if (sh.lean) lean_point("ag.yield", nullptr, 0, 0, tstate::spinning);
+            else verif_agent::yield_k(k, d);
+        }
+        void spin_k(std::size_t k, char const* d) override
+        {
+            if (sh.lean) lean_point("ag.yield", nullptr, 0, 0, tstate::spinning);
+            else verif_agent::spin_k(k, d);
+        }
         void suspend(char const* desc) override
         {
+            int r = -1;
             {
                 std::unique_lock<std::mutex> l(c->m);
                 auto& me = c->th[tid];
@@ -107,17 +191,16 @@ namespace {
                 sh.in_susp[tid] = 1;
                 ++sh.real_suspends;
                 c->switch_from(-1, l);    // pick the next thread, do not wait for the baton here
+                r = grant(*c, sh);
             }
-            my_tid = -1;
-            real.suspend(desc);    // the pika task gives up its worker until somebody resumes it
-            install_agent(*this);  // (possibly on another worker)
-            my_tid = tid;
+            if (r >= 0) real_resume(*c, sh, r, "verif: baton", true);
+            real_suspend(desc);
             {
                 std::unique_lock<std::mutex> l(c->m);
                 auto& me = c->th[tid];
                 sh.in_susp[tid] = 0;
                 if (me.tokens <= 0) sh.spurious.push_back(tid);
-                me.cv.wait(l, [&] { return c->current == tid; });
+                await_baton(l);
                 me.st = tstate::runnable;
                 me.tokens--;
                 c->logf(tid, "ag.woke", 0, me.tokens, me.aborted ? 1 : 0);
@@ -126,22 +209,60 @@ namespace {
         void resume(char const* desc) override
         {
             c->agent_resume(tid, false);    // book-keeping + `ag.resume` line (tid = target)
-            int const caller = my_tid;
+            real_resume(*c, sh, tid, desc, false);
+        }
+        // first / last step of the task (lean mode; otherwise controller::thread_begin / thread_end)
+        void lean_begin()
+        {
+            my_tid = tid;
+            std::unique_lock<std::mutex> l(c->m);
+            c->th[tid].st = tstate::runnable;
+            await_baton(l);
+        }
+        void lean_end()
+        {
+            int r;
             {
                 std::unique_lock<std::mutex> l(c->m);
-                ++sh.res_started[tid];
-                if (real_state(sh.ids[tid]) == pika::threads::detail::thread_schedule_state::active)
-                    ++sh.resumes_on_active;
+                c->logf(tid, "done", 0, 0, 0);
+                c->th[tid].st = tstate::done;
+                my_tid = -1;
+                c->switch_from(-1, l);
+                r = grant(*c, sh);
             }
-            my_tid = -1;
-            if (!sh.drop_real_resume) real.resume(desc);
-            my_tid = caller;
-            {
-                std::unique_lock<std::mutex> l(c->m);
-                ++sh.res_done[tid];
-            }
+            if (r >= 0) real_resume(*c, sh, r, "verif: baton", true);
         }
     };
+
+    // the real resume of `target` through its pika execution_agent; `counted`: res_started has
+    // already been incremented under the lock that made the grant
+    void real_resume(controller& c, task_shared& sh, int target, char const* desc, bool counted)
+    {
+        int const caller = my_tid;
+        {
+            std::unique_lock<std::mutex> l(c.m);
+            if (!counted) ++sh.res_started[target];
+            if (!counted && real_state(sh.ids[target]) == pika::threads::detail::thread_schedule_state::active)
+                ++sh.resumes_on_active;
+        }
+        my_tid = -1;
+        if (!sh.drop_real_resume || counted) sh.agents[target]->real.resume(desc);
+        my_tid = caller;
+        {
+            std::unique_lock<std::mutex> l(c.m);
+            ++sh.res_done[target];
+        }
+    }
+
+#if defined(PIKA_VERIF_HOOKS)
+    void lean_sink(int phase, char const* site, void const* o, std::uint64_t a, std::uint64_t b) noexcept
+    {
+        int tid = my_tid;
+        if (tid < 0 || g_ctl == nullptr || g_ctl->finished) return;
+        if (phase == 0) g_sh->agents[tid]->lean_point(site, o, (long long) a, (long long) b, tstate::runnable);
+        else g_ctl->note(tid, site, o, (long long) a, (long long) b);
+    }
+#endif
 
     // A lost wake-up of pika's task agent is declared from state only: the baton has been granted to
     // task T (so no model thread runs or can run), every real resume call aimed at T has returned,
@@ -161,7 +282,7 @@ namespace {
             std::unique_lock<std::mutex> l(c.m);
             int const t = c.current;
             bool cand = t >= 0 && t < c.n && sh.in_susp[t] == 1 && sh.res_started[t] == sh.res_done[t] &&
-                c.th[t].st != tstate::done && real_state(sh.ids[t]) == st::suspended;
+                !sh.at_point[t] && c.th[t].st != tstate::done && real_state(sh.ids[t]) == st::suspended;
             if (cand)
             {
                 long exp_active = 0, exp_susp = 0;
@@ -184,20 +305,29 @@ namespace {
         }
     }
 
-    [[noreturn]] void run_task_agents(controller& c, std::vector<std::function<void()>> bodies)
+    [[noreturn]] void run_task_agents(controller& c, std::vector<std::function<void()>> bodies, int workers)
     {
         g_ctl = &c;
         auto* sh = new task_shared(c.n);
+        g_sh = sh;
+        sh->lean = workers > 0;
         sh->drop_real_resume = std::getenv("VERIF_C09P_DROP_RESUME") != nullptr;
         c.on_finish = [&c, sh] {
             for (int t : sh->spurious) c.logf(t, "tk.spurious", 0, 0, 0);
             c.logf(0, "tk.stat", 0, sh->real_suspends, sh->resumes_on_active);
         };
-        std::string threads = "--pika:threads=" + std::to_string(c.n + 1);
+        std::string threads = "--pika:threads=" + std::to_string(sh->lean ? workers : c.n + 1);
         char const* argv[] = {"e1", threads.c_str(), "--pika:bind=none", nullptr};
         pika::start(nullptr, 3, argv);
+        if (std::getenv("VERIF_C09P_BT") != nullptr)
+            std::set_terminate([] {
+                void* b[40];
+                int n = backtrace(b, 40);
+                backtrace_symbols_fd(b, n, 2);
+                _exit(99);
+            });
 #if defined(PIKA_VERIF_HOOKS)
-        pika::verif::sink.store(&e1_sink);
+        pika::verif::sink.store(sh->lean ? &lean_sink : &e1_sink);
 #endif
         namespace ex = pika::execution::experimental;
         for (int i = 0; i < c.n; ++i)
@@ -208,17 +338,35 @@ namespace {
                 {
                     std::unique_lock<std::mutex> l(c.m);
                     sh->ids[i] = pika::threads::detail::get_self_id();
+                    sh->agents[i] = &ag;
                 }
                 install_agent(ag);
-                c.thread_begin(i);
+                if (sh->lean) ag.lean_begin();
+                else c.thread_begin(i);
                 bodies[i]();
-                c.thread_end(i);
+                if (sh->lean) ag.lean_end();
+                else c.thread_end(i);
                 install_agent(real.ref());
                 // the task ends here and gives its worker back
             }));
         }
         c.start_all();
+        {
+            int r;
+            {
+                std::unique_lock<std::mutex> l(c.m);
+                r = grant(c, *sh);
+            }
+            if (r >= 0) real_resume(c, *sh, r, "verif: baton", true);
+        }
         watchdog(c, *sh);
+    }
+
+    // harness preemption point of a body
+    inline void hpt(char const* site, void const* o = nullptr, long long a = 0, long long b = 0)
+    {
+        if (g_sh != nullptr && g_sh->lean) g_sh->agents[my_tid]->lean_point(site, o, a, b, tstate::runnable);
+        else pt(site, o, a, b);
     }
 }    // namespace
 
@@ -335,7 +483,7 @@ static void run_body(case_t const& c, bool task_mode, bool fell_back)
                 {
                     if (op.name == "wait")
                     {
-                        pt("inv.wait", o);
+                        hpt("inv.wait", o);
                         lt->wait();
                         nt("ret", o, 0);
                     }
@@ -343,38 +491,38 @@ static void run_body(case_t const& c, bool task_mode, bool fell_back)
                     {
                         // try_wait is a single atomic load: the invocation point is the
                         // preemption point in front of it
-                        pt("inv.try", o);
+                        hpt("inv.try", o);
                         bool r = lt->try_wait();
                         nt("ret", o, r);
                     }
                     else if (op.name == "cd")
                     {
-                        pt("inv.cd", o, a0);
+                        hpt("inv.cd", o, a0);
                         lt->count_down(a0);
                         nt("ret", o, 0);
                     }
                     else if (op.name == "aw")
                     {
-                        pt("inv.aw", o, a0);
+                        hpt("inv.aw", o, a0);
                         lt->arrive_and_wait(a0);
                         nt("ret", o, 0);
                     }
                     else if (op.name == "ewait")
                     {
-                        pt("inv.ewait", o);
+                        hpt("inv.ewait", o);
                         ev->wait();
                         nt("ret", o, 0);
                     }
                     else if (op.name == "eset")
                     {
-                        pt("inv.eset", o);
+                        hpt("inv.eset", o);
                         ev->set();
                         nt("ret", o, 0);
                     }
                     else if (op.name == "ereset")
                     {
                         // reset() is a single atomic store
-                        pt("inv.ereset", o);
+                        hpt("inv.ereset", o);
                         ev->reset();
                         nt("event.stored", o, 0);
                         nt("ret", o, 0);
@@ -382,18 +530,18 @@ static void run_body(case_t const& c, bool task_mode, bool fell_back)
                     else if (op.name == "eocc")
                     {
                         // occurred() is a single atomic load
-                        pt("inv.eocc", o);
+                        hpt("inv.eocc", o);
                         bool r = ev->occurred();
                         nt("ret", o, r);
                     }
                     else if (op.name == "call")
                     {
-                        pt("inv.call", o, a0);
+                        hpt("inv.call", o, a0);
                         bool threw = false;
                         try
                         {
                             pika::call_once(*fl, [&] {
-                                pt("once.body", o, a0);
+                                hpt("once.body", o, a0);
                                 if (a0 != 0)
                                 {
                                     nt("once.body.end", o, 1);
@@ -416,7 +564,7 @@ static void run_body(case_t const& c, bool task_mode, bool fell_back)
             }
         });
     }
-    if (task_mode) run_task_agents(*ctl, bodies);
+    if (task_mode) run_task_agents(*ctl, bodies, int(c.geti("workers", 0)));
     run_os_threads(*ctl, bodies);
 }
 
